@@ -93,7 +93,13 @@ def cases(ctx, n, thorough):
             recs = [(n_, s[:max(1, len(s) - 3 * k)]) for k, (n_, s) in enumerate(recs)]
         type_ = rng.choice([3, 4, 5]) if kind == "protein" else rng.choice([0, 1, 2, 5])
         type_ = gen.fit_type(type_, kind, recs)
-        out.append(Case(recs, type_, threads=rng.choice([1, 4, 16]), fmt="fasta", api=rng.choice(["file", "arr"]), evlog=True,
+        api = rng.choice(["file", "arr"])
+        if i % 6 == 4 and len(recs) >= 4:
+            # records without residues in between (the library drops them and renumbers the rest; member lists must follow)
+            for _ in range(rng.randint(1, 3)):
+                recs.insert(rng.randint(1, len(recs)), ("empty%d" % len(recs), ""))
+            api = "file"
+        out.append(Case(recs, type_, threads=rng.choice([1, 4, 16]), fmt="fasta", api=api, evlog=True,
                         jitter=rng.choice([0, 0, rng.randint(1, 10 ** 6)])))
     return out
 
@@ -125,7 +131,9 @@ def run(ctx):
         if why:
             fails.append(("final alignment broken: " + why, c, None))
             continue
-        final = {k: r for k, (_, r) in enumerate(rows)}   # all records non-empty here: rank == row index
+        # rank = position among ALL input records; output rows exist for the non-empty ones, in input order
+        nonempty = [k for k, (_, q) in enumerate(c.records) if q]
+        final = {k: rows[j][1] for j, k in enumerate(nonempty)} if len(rows) == len(nonempty) else {}
         nd = sysrun.parse_nd(c.events)
         if not nd:
             fails.append(("no NODE_DONE events logged", c, None))
@@ -145,6 +153,9 @@ def run(ctx):
                     fails.append((bad, c, dict(task=e["task"], a=e["a"], b=e["b"])))
                     break
                 ctx.count("member_sets_checked")
+            if any(r not in final for r, g in members):
+                fails.append(("node %d lists a member (rank %s) that is not a non-empty input record" % (e["task"], [r for r, g in members if r not in final][:3]), c, dict(event=e)))
+                break
             snap = [linear(c.records[r][1], g) for r, g in members]
             proj = project([final[r] for r, g in members])
             ctx.count("nodes_checked")
